@@ -51,6 +51,43 @@ func loadProgram(repo string, patterns []string, overlay map[string][]byte, spec
 	for _, sp := range prog.AllPackages() {
 		p.pkgs[relPkgPath(sp.Pkg)] = sp
 	}
+	p.mutableGlobals = map[*ssa.Global]bool{}
+	for fn := range ssautil.AllFunctions(prog) {
+		if fn.Name() == "init" && fn.Parent() == nil && fn.Signature.Recv() == nil {
+			continue
+		}
+		for _, b := range fn.Blocks {
+			for _, in := range b.Instrs {
+				for _, op := range in.Operands(nil) {
+					g, ok := (*op).(*ssa.Global)
+					if !ok {
+						continue
+					}
+					// a global is immutable if its address is only ever loaded from
+					if u, isLoad := in.(*ssa.UnOp); isLoad && u.Op == token.MUL {
+						continue
+					}
+					if fa, isFA := in.(*ssa.FieldAddr); isFA {
+						onlyLoads := true
+						for _, r := range *fa.Referrers() {
+							if u, isLoad := r.(*ssa.UnOp); !(isLoad && u.Op == token.MUL) {
+								if _, dbg := r.(*ssa.DebugRef); !dbg {
+									onlyLoads = false
+								}
+							}
+						}
+						if onlyLoads {
+							continue
+						}
+					}
+					if _, dbg := in.(*ssa.DebugRef); dbg {
+						continue
+					}
+					p.mutableGlobals[g] = true
+				}
+			}
+		}
+	}
 	cs, err := loadContracts(repo, specDirs...)
 	if err != nil {
 		return nil, err
